@@ -112,7 +112,12 @@ def gen_cases(tier, seed):
     for i in range(n // 4):
         rng = gen.rng_for("C04s", seed, i)
         base = I.cyc_edge_base(rng, wt="int", max_edges=9)
-        cases.append({"kind": "scale", "spec": I.spec_of(base), "c": rng.choice([2, 10, 0.5, 0.1, 0.25, 1e4, 1e6])})
+        cases.append({"kind": "scale", "spec": I.spec_of(base), "c": rng.choice([2, 10, 0.5, 0.1, 0.25, 1e4, 1e6, 2.5, 1.5, 3.7])})
+        if i % 3 == 0:
+            # a single weighted walk (the optimum is 1 walk whatever the factor), scaled to values that are not whole numbers
+            b1 = I.cyc_edge_base(rng, wt="int", max_edges=8, npaths=1)
+            if len(b1["planted"]) == 1:
+                cases.append({"kind": "scale", "spec": I.spec_of(b1), "c": rng.choice([2.5, 1.5, 3.7, 0.75])})
     return cases
 
 
